@@ -17,6 +17,13 @@ func (x *Exec) doCall(st *State, ins ssa.Instruction, c *ssa.CallCommon) (Val, b
 	args := make([]Val, len(c.Args))
 	for i, a := range c.Args {
 		args[i] = x.get(st, a)
+		if ad, ok := args[i].(VAddr); ok {
+			p, ok := addrToPtr(ad)
+			if !ok {
+				x.fail("interior pointer passed to a call (outside the supported subset)")
+			}
+			args[i] = p
+		}
 	}
 	if b, ok := c.Value.(*ssa.Builtin); ok {
 		return x.builtin(st, b, c, args, ins.Pos()), true
@@ -82,12 +89,48 @@ func (x *Exec) callSymbolicFunc(st *State, c *ssa.CallCommon, f VFunc, args []Va
 		*st = *m
 		return iteVal(cnd, r1, r2), true
 	}
-	// unknown function value: only the signature-level contract "pure total function" is available
+	// unknown function value: a function-type contract, or a closed-world split over the
+	// functions of that signature whose address is taken in the module
 	spec := x.P.funcTypeSpec(c.Value.Type())
-	if spec == nil {
-		x.fail("call through a symbolic function value of type %s without a function-type contract", c.Value.Type())
+	if spec != nil {
+		return x.applyContract(st, nil, spec, c.Signature(), args, pos, "funcvalue")
 	}
-	return x.applyContract(st, nil, spec, c.Signature(), args, pos, "funcvalue")
+	cands := x.P.addressTaken(c.Signature())
+	if len(cands) == 0 {
+		x.fail("call through a symbolic function value of type %s: no candidate targets", c.Value.Type())
+	}
+	var known []*T
+	for _, cf := range cands {
+		known = append(known, term.Eq(f.Fn, term.I(x.P.funcID(cf))))
+	}
+	x.oblige(st, "funcvalue", "target is one of the module's functions of this type", term.Or(known...), pos)
+	var outSt *State
+	var outVal Val
+	pcB := st.PC
+	for i := len(cands) - 1; i >= 0; i-- {
+		cf := cands[i]
+		cnd := term.Eq(f.Fn, term.I(x.P.funcID(cf)))
+		si := st.clone()
+		si.PC = term.And(pcB, cnd)
+		r, ok := x.callValue(si, c, VFunc{term.I(x.P.funcID(cf)), f.Env, f.Ty}, args, nil)
+		if !ok {
+			continue
+		}
+		if outSt == nil {
+			outSt, outVal = si, r
+			continue
+		}
+		outSt = x.mergeStates(cnd, si, outSt, len(si.Frames))
+		if r != nil {
+			outVal = iteVal(cnd, r, outVal)
+		}
+	}
+	if outSt == nil {
+		return nil, false
+	}
+	outSt.PC = pcB
+	*st = *outSt
+	return outVal, true
 }
 
 func envOf(env *T, arm int) *T {
@@ -129,6 +172,7 @@ func (x *Exec) callFunc(st *State, fn *ssa.Function, args []Val, binds []Val, po
 	}
 	if useContract {
 		x.callCount[fnName(fn)]++
+		x.pendingBinds = binds
 		return x.applyContract(st, fn, spec, fn.Signature, args, pos, fmt.Sprintf("%s#%d", fnName(fn), x.callCount[fnName(fn)]))
 	}
 	if x.Mode == ModeProof && spec == nil && !x.P.autoInline(fn) {
@@ -151,6 +195,9 @@ func (x *Exec) callFunc(st *State, fn *ssa.Function, args []Val, binds []Val, po
 func (x *Exec) invoke(st *State, c *ssa.CallCommon, recv VIface, args []Val, pos token.Pos) (Val, bool) {
 	x.nilCheck(st, recv.Tag, "interface method call", pos)
 	if id, ok := recv.Tag.Int64(); ok {
+		if id == 0 {
+			return nil, false // nil interface: the nil obligation above has failed on this path
+		}
 		t := x.P.typeByID(id)
 		fn := x.P.SSA.LookupMethod(t, c.Method.Pkg(), c.Method.Name())
 		if fn == nil {
@@ -233,6 +280,17 @@ func (x *Exec) applyContract(st *State, fn *ssa.Function, spec *contract.FuncSpe
 		env.vars[n] = args[i]
 		env.vars[n+"0"] = args[i]
 	}
+	if fn != nil && len(fn.FreeVars) > 0 {
+		binds := x.pendingBinds
+		if len(binds) != len(fn.FreeVars) {
+			x.fail("contract application %s: closure environment unavailable", site)
+		}
+		for i, fv := range fn.FreeVars {
+			elem := fv.Type().(*types.Pointer).Elem()
+			env.vars[fv.Name()] = x.load(st, x.ptrAddr(binds[i].(VT).T, elem))
+		}
+	}
+	x.pendingBinds = nil
 	// representation-private clauses (#rep) are visible only inside the owning package
 	// (encapsulation: the fields are unexported and every function of the package keeps the invariant)
 	sameP := true
@@ -297,8 +355,18 @@ func (x *Exec) applyContract(st *State, fn *ssa.Function, spec *contract.FuncSpe
 	// 4. result
 	var res Val
 	nres := sig.Results().Len()
+	if spec.Pure && nres == 1 {
+		// a pure function is a mathematical function of its arguments: same symbol everywhere
+		if fn == nil && strings.HasPrefix(site, "iface.") {
+			res = x.pureCall(st, args[0], strings.TrimPrefix(site, "iface."), args[1:])
+		} else {
+			res = x.pureFn(st, "pure!"+specKey(fn, spec), sig.Results().At(0).Type(), args)
+		}
+		env.vars["result"] = res
+		nres = -1
+	}
 	switch nres {
-	case 0:
+	case -1, 0:
 	case 1:
 		res = freshVal("ret."+short(site), sig.Results().At(0).Type())
 		x.assumeTyped(st, res, sig.Results().At(0).Type())
@@ -309,6 +377,7 @@ func (x *Exec) applyContract(st *State, fn *ssa.Function, spec *contract.FuncSpe
 			v := freshVal(fmt.Sprintf("ret%d.%s", i, short(site)), sig.Results().At(i).Type())
 			x.assumeTyped(st, v, sig.Results().At(i).Type())
 			tu = append(tu, v)
+			env.vars[fmt.Sprintf("result%d", i)] = v
 			if n := sig.Results().At(i).Name(); n != "" && n != "_" {
 				env.vars[n] = v
 			}
@@ -650,4 +719,32 @@ func (x *Exec) indexRune(st *State, s VStr, r *T) *T {
 		res = term.Ite(term.Eq(r, term.I(int64(ents[i].b))), term.I(int64(ents[i].i)), res)
 	}
 	return res
+}
+
+func specKey(fn *ssa.Function, spec *contract.FuncSpec) string {
+	if fn != nil {
+		return fnName(fn)
+	}
+	return spec.Ref
+}
+
+// pureFn applies the uninterpreted function that a `pure` contract licenses.
+func (x *Exec) pureFn(st *State, key string, rt types.Type, args []Val) Val {
+	var in []*T
+	for _, a := range args {
+		in = append(in, flatten(a)...)
+	}
+	sorts := make([]*term.Sort, len(in))
+	for i, t := range in {
+		sorts[i] = t.Sort
+	}
+	cs := comps(rt)
+	ts := make([]*T, len(cs))
+	for i, c := range cs {
+		f := term.DeclareFun(key+c.suffix, sorts, c.sort)
+		ts[i] = term.App(f, in...)
+	}
+	v := mkVal(rt, ts)
+	x.assumeTyped(st, v, rt)
+	return v
 }
